@@ -23,7 +23,7 @@ ASSUMPTIONS = [
     "rule patterns are read through the regex-level reference R1 (vf/ref/rulelang.py); the implicit rule texts themselves are taken from annet.implicit._implicit_tree (data)",
     "reference completion adds, with a default block, the defaults nested in it (what idempotence requires)",
 ]
-FLOORS = {"quick": {"completions": 2000, "defaults_added": 2000, "defaults_suppressed": 1000, "patches_checked": 1500, "front_runs": 150, "front_safe_runs": 150, "front_runs_clear_mode": 150, "block_lines_added": 4000, "pairs_with_vrf_change_on_an_interface": 300, "ports_in_a_port_channel_on_both_sides": 500, "touch_patches_checked": 2500},
+FLOORS = {"quick": {"completions": 2000, "defaults_added": 2000, "defaults_suppressed": 1000, "patches_checked": 1500, "front_runs": 150, "front_safe_runs": 150, "front_runs_clear_mode": 150, "block_lines_added": 4000, "pairs_with_vrf_change_on_an_interface": 300, "ports_in_a_port_channel_on_both_sides": 500, "touch_patches_checked": 2500, "front_runs_with_defaults_covered_through_the_negated_form_of_a_rule": 150},
           "thorough": {"completions": 100000, "defaults_added": 100000, "defaults_suppressed": 50000, "patches_checked": 70000, "front_runs": 7000, "front_safe_runs": 7000, "front_runs_clear_mode": 7000, "block_lines_added": 80000, "pairs_with_vrf_change_on_an_interface": 6000}}
 MODELS = [("Huawei CE6870", ()), ("Huawei NE40E-X8", ()), ("Huawei Quidway S5300", ()), ("Arista DCS-7050", ()),
           ("Cisco Nexus 3132", ()), ("Cisco Nexus 3432", ()), ("Cisco Nexus 9316", ()), ("Cisco Nexus N9K-C9364", ()), ("Cisco Nexus 9504", ("spine1",)),
@@ -162,7 +162,7 @@ def pure_defaults(t, m):
 def diff_paths(diff, prefix=()):
     out = []
     for op, row, ch, _ in diff:
-        out.append((getattr(op, "name", str(op)), prefix + (row,)))
+        out.append((str(getattr(op, "name", op)).upper(), prefix + (row,)))  # (Op members are plain lower-case strings)
         out += diff_paths(ch, prefix + (row,))
     return out
 
@@ -290,7 +290,7 @@ def check_case(seed, acc, blk=False):
         P2 = pure_defaults(t, m) & pure_defaults(t2, m2)
         for c in cmds_t:
             row = c[-1][len(v.reverse) + 1:] if c[-1].startswith(v.reverse + " ") else c[-1]
-            if (c[:-1] + (row,) in P2 or c in P2) and not any(len(o) > len(c) and o[:len(c)] == c for o in cmds_t):
+            if (c[:-1] + (row,) in P2 or c in P2 or c[:-1] + (v.reverse + " " + c[-1],) in P2) and not any(len(o) > len(c) and o[:len(c)] == c for o in cmds_t):
                 acc.violation("C17/command-for-pure-default", "a patch command concerns a default line that is absent from both configurations", dict(w, command=list(c), touch=True))
                 return w
     P = pure_defaults(t, m) & pure_defaults(u, mu)
@@ -301,7 +301,7 @@ def check_case(seed, acc, blk=False):
     pre = v.reverse + " "
     for c in cmds:
         row = c[-1][len(pre):] if c[-1].startswith(pre) else c[-1]
-        cand = {c[:-1] + (row,), c[:-1] + (c[-1],)}
+        cand = {c[:-1] + (row,), c[:-1] + (c[-1],), c[:-1] + (pre + c[-1],)}   # the line, its removal, or the positive command removing a line spelled negated
         hit = [x for x in cand if x in P]
         # a block header on the way to a real change is fine; a leaf command about a pure default is not
         if hit and not any(len(o) > len(c) and o[:len(c)] == c for o in cmds):
@@ -327,7 +327,7 @@ def mutate(rng, t, rules):
     return out
 
 
-def check_front(seed, acc, clear=False):
+def check_front(seed, acc, clear=False, flipacl=False):
     """production composition: _old_new_per_device(add_implicit=True) then _diff_and_patch; clear=True: the --clear mode (nothing is
     generated, the device is to be emptied of what the generators own)"""
     from annet.api import _diff_and_patch
@@ -347,8 +347,45 @@ def check_front(seed, acc, clear=False):
     if clear:
         t = t or gen_tree(rng, rules)
         acc.count("front_runs_clear_mode")
-    w = {"front": True, "clear": clear, "seed": seed, "model": model, "tags": list(tags), "tree": t, "other": u}
-    gen = H.make_partial("GenAll", v.NAME, "~ %global", H.tree_runner(u))
+    w = {"front": True, "clear": clear, "flipacl": flipacl, "seed": seed, "model": model, "tags": list(tags), "tree": t, "other": u}
+    acl_text = "~ %global"
+    if flipacl:
+        # the generator wants what the device has, plus a description in some blocks: every default that is pure on one side is pure on the other
+        urng = random.Random(seed ^ 0xF11B)
+        t = t or gen_tree(rng, rules)
+        u = [[r, ([["description zz", []]] if c and urng.random() < 0.5 and all(x[0] != "description zz" for x in c) else []) + [list(x) for x in c]] for r, c in t]
+        w["tree"], w["other"] = t, u
+        # the generator's ACL names every line of both sides and every default by its own text, and a line spelled negated (`no shutdown`,
+        # `undo synchronization`) by the POSITIVE command: such a line is covered through the negated form of that rule
+        t0 = t
+        if not t0:
+            from annet import generators as _g
+            t0 = plain(_g.run_partial_initial(dev).config_tree())
+        allrows = merge(merge(merge(u, t0), ref_implicit(t0, rules)), ref_implicit(u, rules))
+        pre_ = v.reverse + " "
+        nflip = [0]
+
+        def acl_lines(tree, ind=0):
+            out = []
+            for r, c in tree:
+                if any(ch in r for ch in "*~()[]{}|?+\\^$%") or r.startswith(("!", "#")):
+                    return None
+                if r.startswith(pre_):
+                    nflip[0] += 1
+                out.append(" " * ind + (r[len(pre_):] if r.startswith(pre_) else r))
+                sub = acl_lines(c, ind + 4)
+                if sub is None:
+                    return None
+                out += sub
+            return out
+        lines = acl_lines(allrows)
+        if lines is None or not nflip[0]:
+            acc.count("front_flip_skipped")
+            return
+        acl_text = "\n".join(lines)
+        acc.count("front_runs_with_defaults_covered_through_the_negated_form_of_a_rule")
+        w["acl"] = acl_text
+    gen = H.make_partial("GenAll", v.NAME, acl_text, H.tree_runner(u))
     if clear:
         u = []
     try:
@@ -394,7 +431,8 @@ def check_front(seed, acc, clear=False):
     pre = v.reverse + " "
     for c in cmds:
         row = c[-1][len(pre):] if c[-1].startswith(pre) else c[-1]
-        if (c[:-1] + (row,)) in P and not any(len(o) > len(c) and o[:len(c)] == c for o in cmds):
+        # (a command concerns a line when it is the line, its removal, or - for a line that is itself spelled negated - the positive command)
+        if ({c[:-1] + (row,), c[:-1] + (pre + c[-1],)} & P) and not any(len(o) > len(c) and o[:len(c)] == c for o in cmds):
             acc.violation("C17/front-end-command-for-pure-default", "through the production front end, a patch command concerns a default line absent from both sides", dict(w, command=list(c)))
             return
 
@@ -454,13 +492,14 @@ def run_shard(spec, acc):
             check_front_safe(w["seed"], acc)
         else:
             if w.get("front"):
-                check_front(w["seed"], acc, clear=bool(w.get("clear")))
+                check_front(w["seed"], acc, clear=bool(w.get("clear")), flipacl=bool(w.get("flipacl")))
             else:
                 check_case(w["seed"], acc, blk=bool(w.get("blk")))
         return
     tier, k, n = spec["tier"], spec["shard"], spec["nshards"]
     total = 6000 if tier == "quick" else 120000
     rng = random.Random("C17/%s/%s" % (spec["seed"], k))
+    frng = random.Random("C17/flipacl/%s/%s" % (spec["seed"], k))
     for j in range(total // n):
         w = check_case(rng.randrange(1 << 48), acc)
         if j < 2 and w:
@@ -473,3 +512,5 @@ def run_shard(spec, acc):
             check_front_safe(rng.randrange(1 << 48), acc)
         if j % 8 == 6:
             check_front(rng.randrange(1 << 48), acc, clear=True)
+        if j % 8 in (2, 5):
+            check_front(frng.randrange(1 << 48), acc, flipacl=True)
